@@ -33,6 +33,7 @@ def main():
             else:
                 det["patch"] = {"error": ap.stdout[-300:]}
             run(f"git -C /repo worktree remove --force {wt}")
+            run(f"/verif/tools/clean_override.sh {wt}")
             meta["detected_by"] = det
             json.dump(meta, open(f"{sd}/meta.json", "w"), indent=1)
             print(d, {k: (v.get("violations"), v.get("with_failing_input")) for k, v in det.items()}, flush=True)
